@@ -1,8 +1,253 @@
-import KG.Spec.GlobalCount
-namespace KG.Props.C08
-open KG KG.Model.GlobalCount KG.Spec.GlobalCount
+import KG.Lemmas.GlobalCount
+/-!
+# C08 — Global count: the server never grants beyond the global limit; accounting is exact
 
-theorem placeholder_wrap32_id (x : Int) (h : InI32 x) : wrap32 x = x := by
-  unfold InI32 at h; unfold wrap32; omega
+Model: `KG.Model.GlobalCount` (current, repaired tree). Judge / invariants: `KG.Spec.GlobalCount`.
+
+`SetState` is ONE critical section of `f.lock` (shape fact re-read from the source on every check:
+`KG.Gen.C08.setStateOneCriticalSection`), so one call is one atomic step (`setState`); every interleaving of
+calls issued by any number of instances/threads is therefore a sequence of `Op`s, and the sequential theorems
+below, which quantify over ALL op lists, are the interleaving theorems (`c08_conc_*` make that explicit; the
+`Fine` system with the lock and every atomic as its own step is related to it in part 4).
+Exclusion of `sync.RWMutex.Lock` / `sync.Mutex.Lock` is trusted.
+-/
+namespace KG.Props.C08
+open KG KG.Model.GlobalCount KG.Spec.GlobalCount KG.Lemmas.GlobalCount
+
+/-! ## 0. the shape facts the atomic-step models rest on (regenerated from /repo; `rfl` breaks if they change) -/
+
+theorem c08_shape_setstate_one_critical_section : KG.Gen.C08.setStateOneCriticalSection = true := rfl
+theorem c08_shape_tryacquire_reads_clock_under_lock : KG.Gen.C08.tryAcquireSerialized = true := rfl
+
+/-! ## 1. one operation -/
+
+/-- every operation keeps `count = Σ states` as `int32`s (what `DebugInfo` shows as `count` vs `total`),
+    whatever the values: no hypothesis besides "arguments are `int32`s" -/
+theorem c08_step_total_mod (g : G) (op : Op) (h : ModInv g) (hop : OpI32 op) : ModInv (step g op) := by
+  cases op with
+  | set i r c => exact setState_modInv i r c h hop
+  | resize n =>
+    show ModInv (resize g n).1
+    unfold resize
+    split
+    · exact ⟨⟨hop, h.1.count, h.1.states, h.1.nodup⟩, h.2⟩
+    · exact h
+
+/-- exact accounting and the bound, for one `SetState`: the total stays exactly `Σ states`, and
+    `count' ≤ max(count, limit)`; the limit is untouched -/
+theorem c08_setState_exact (g : G) (inst : Str) (rid cur : Int) (h : Inv g) (hc : InI32 cur)
+    (hpre : 0 ≤ cur → Pre g inst cur) :
+    Inv (setState g inst rid cur).1 ∧
+    ((setState g inst rid cur).1.count ≤ g.count ∨ (setState g inst rid cur).1.count ≤ g.max) ∧
+    (setState g inst rid cur).1.max = g.max := by
+  refine ⟨?_, ?_, setState_max g inst rid cur⟩
+  · -- Inv
+    have hmod : ModInv (setState g inst rid cur).1 :=
+      setState_modInv inst rid cur ⟨h.1, by rw [h.2, wrap32_id (h.2 ▸ h.1.count)]⟩ hc
+    refine ⟨hmod.1, ?_⟩
+    by_cases hneg : cur < 0
+    · cases hf : find inst g.states with
+      | none => rw [setState_remove_none g inst rid cur hneg hf]; exact h.2
+      | some s =>
+        rw [setState_remove_some g inst rid cur s hneg hf]
+        show wrap32 (g.count + wrap32 (-s.count)) = sumStates (erase inst g.states)
+        rw [sum_erase_some hf, h.2]
+        have := allOk_find h.1.states hf
+        have := find_le_sum h.1.states hf
+        have hc := h.1.count; rw [h.2] at hc
+        unfold InI32 at hc; unfold wrap32; omega
+    · have h0 : 0 ≤ cur := by omega
+      have hp := hpre h0
+      have hI : Inv (ensure g inst) := ⟨ensure_wf inst h.1, by rw [ensure_count, ensure_sum]; exact h.2⟩
+      rw [setState_report g inst rid cur h0]
+      by_cases hs : rid > 0 ∧ rid ≤ (stateOf g inst).requestId
+      · rw [report_stale _ _ _ _ _ hs]; exact hI.2
+      · have hpre' : sumStates (ensure g inst).states ≤ (ensure g inst).max ∨
+            sumStates (ensure g inst).states - (stateOf g inst).count + cur ≤ 2147483647 := by
+          rw [ensure_sum, ensure_max, stateOf_count]; exact hp.2
+        rcases report_exact hI (ensure_find g inst) ⟨h0, hc.2⟩ (by rw [ensure_max]; exact hp.1) hpre' hs with
+          ⟨_, _, e⟩ | ⟨_, _, e⟩
+        · rw [e]
+          show (ensure g inst).count = sumStates (put inst _ (ensure g inst).states)
+          rw [sum_put_some (ensure_find g inst), hI.2]
+          show _ = sumStates (ensure g inst).states - (stateOf g inst).count + (stateOf g inst).count
+          omega
+        · rw [e]
+          show _ = sumStates (put inst _ (ensure g inst).states)
+          rw [sum_put_some (ensure_find g inst)]
+  · -- bound
+    by_cases hneg : cur < 0
+    · cases hf : find inst g.states with
+      | none => rw [setState_remove_none g inst rid cur hneg hf]; exact Or.inl (Int.le_refl _)
+      | some s =>
+        rw [setState_remove_some g inst rid cur s hneg hf]
+        left
+        show wrap32 (g.count + wrap32 (-s.count)) ≤ g.count
+        have := allOk_find h.1.states hf
+        have := find_le_sum h.1.states hf
+        have hc := h.1.count
+        have := h.2
+        unfold InI32 at hc; unfold wrap32; omega
+    · have h0 : 0 ≤ cur := by omega
+      have hp := hpre h0
+      have hI : Inv (ensure g inst) := ⟨ensure_wf inst h.1, by rw [ensure_count, ensure_sum]; exact h.2⟩
+      rw [setState_report g inst rid cur h0]
+      by_cases hs : rid > 0 ∧ rid ≤ (stateOf g inst).requestId
+      · rw [report_stale _ _ _ _ _ hs]; left; rw [ensure_count]; exact Int.le_refl _
+      · have hpre' : sumStates (ensure g inst).states ≤ (ensure g inst).max ∨
+            sumStates (ensure g inst).states - (stateOf g inst).count + cur ≤ 2147483647 := by
+          rw [ensure_sum, ensure_max, stateOf_count]; exact hp.2
+        rcases report_exact hI (ensure_find g inst) ⟨h0, hc.2⟩ (by rw [ensure_max]; exact hp.1) hpre' hs with
+          ⟨_, _, e⟩ | ⟨hn, _, e⟩
+        · rw [e]; left; show (ensure g inst).count ≤ g.count; rw [ensure_count]; exact Int.le_refl _
+        · rw [e]
+          show sumStates (ensure g inst).states - (stateOf g inst).count + cur ≤ g.count ∨
+               sumStates (ensure g inst).states - (stateOf g inst).count + cur ≤ g.max
+          rw [ensure_sum, ensure_max] at hn
+          rw [ensure_sum, h.2]
+          omega
+
+/-- **A report that does not raise the instance's count is always applied** — also while the total is above
+    a lowered limit (the repaired defect), for any limit and any total, wrapped or not. -/
+theorem c08_seq_decrease (g : G) (inst : Str) (rid cur : Int) (s : Inst) (h : WF g)
+    (hf : find inst g.states = some s) (h0 : 0 ≤ cur) (hle : cur ≤ s.count)
+    (hns : ¬ (0 < rid ∧ rid ≤ s.requestId)) :
+    find inst (setState g inst rid cur).1.states = some ⟨cur, newId s rid⟩ ∧
+    (setState g inst rid cur).2.latest = cur ∧ (setState g inst rid cur).2.err = .none ∧
+    (setState g inst rid cur).1.count = wrap32 (g.count - (s.count - cur)) := by
+  have ho := allOk_find h.states hf
+  have hst : stateOf g inst = s := by unfold stateOf; rw [hf]
+  have hen : ensure g inst = g := by unfold ensure; rw [hf]
+  rw [setState_report g inst rid cur h0, hst, hen]
+  rcases report_cases g inst s rid cur h.count ho ⟨h0, by omega⟩ hns with ⟨_, hgt, _⟩ | ⟨_, e⟩
+  · omega
+  · rw [e]
+    refine ⟨find_put_self _ _ _, rfl, rfl, ?_⟩
+    show wrap32 (g.count + (cur - s.count)) = wrap32 (g.count - (s.count - cur))
+    congr 1; omega
+
+/-- with exact accounting the total drops by exactly the difference -/
+theorem c08_seq_decrease_exact (g : G) (inst : Str) (rid cur : Int) (s : Inst) (h : Inv g)
+    (hf : find inst g.states = some s) (h0 : 0 ≤ cur) (hle : cur ≤ s.count)
+    (hns : ¬ (0 < rid ∧ rid ≤ s.requestId)) :
+    (setState g inst rid cur).1.count = g.count - (s.count - cur) := by
+  rw [(c08_seq_decrease g inst rid cur s h.1 hf h0 hle hns).2.2.2]
+  have := allOk_find h.1.states hf
+  have := find_le_sum h.1.states hf
+  have hc := h.1.count
+  have := h.2
+  unfold InI32 at hc; unfold wrap32; omega
+
+/-- **A report whose request id is not newer than one already processed for the instance is refused**
+    with `RequestIDTooOld`, and nothing changes. -/
+theorem c08_seq_reqid_refused (g : G) (inst : Str) (rid cur : Int) (s : Inst)
+    (hf : find inst g.states = some s) (h0 : 0 ≤ cur) (hid : 0 < rid ∧ rid ≤ s.requestId) :
+    setState g inst rid cur = (g, ⟨false, cur, .requestIDTooOld⟩) := by
+  have hst : stateOf g inst = s := by unfold stateOf; rw [hf]
+  have hen : ensure g inst = g := by unfold ensure; rw [hf]
+  rw [setState_report g inst rid cur h0, hst, hen, report_stale _ _ _ _ _ hid]
+
+/-- `RequestIDTooOld` is answered only for stale ids -/
+theorem c08_seq_reqid_only_stale (g : G) (inst : Str) (rid cur : Int)
+    (he : (setState g inst rid cur).2.err = .requestIDTooOld) :
+    0 ≤ cur ∧ ∃ s, find inst g.states = some s ∧ 0 < rid ∧ rid ≤ s.requestId := by
+  by_cases hneg : cur < 0
+  · cases hf : find inst g.states with
+    | none => rw [setState_remove_none g inst rid cur hneg hf] at he; cases he
+    | some s => rw [setState_remove_some g inst rid cur s hneg hf] at he; cases he
+  · have h0 : 0 ≤ cur := by omega
+    refine ⟨h0, ?_⟩
+    rw [setState_report g inst rid cur h0, report_eq] at he
+    by_cases hs : rid > 0 ∧ rid ≤ (stateOf g inst).requestId
+    · cases hf : find inst g.states with
+      | none =>
+        have : stateOf g inst = ⟨0, 0⟩ := by unfold stateOf; rw [hf]
+        rw [this] at hs; simp only at hs; omega
+      | some s =>
+        have : stateOf g inst = s := by unfold stateOf; rw [hf]
+        exact ⟨s, rfl, this ▸ hs⟩
+    · simp only [hs, if_false] at he
+      split at he
+      · cases he
+      · split at he <;> cases he
+
+/-- **Stored request ids only grow**: after any `SetState` of a registered instance that does not remove it,
+    the stored id is the old one (refused as stale, or `rid ≤ 0`) or the strictly larger `rid`. -/
+theorem c08_seq_reqid_monotone (g : G) (inst : Str) (rid cur : Int) (s : Inst)
+    (hf : find inst g.states = some s) (h0 : 0 ≤ cur) :
+    ∃ s', find inst (setState g inst rid cur).1.states = some s' ∧ s.requestId ≤ s'.requestId ∧
+      ((setState g inst rid cur).2.err = .none → 0 < rid → s'.requestId = rid ∧ s.requestId < rid) := by
+  have hst : stateOf g inst = s := by unfold stateOf; rw [hf]
+  have hen : ensure g inst = g := by unfold ensure; rw [hf]
+  rw [setState_report g inst rid cur h0, hst, hen]
+  obtain ⟨s', h1, h2⟩ := report_find_id g inst s rid cur hf
+  refine ⟨s', h1, ?_, ?_⟩
+  · rw [h2]; unfold newId; split
+    · exact Int.le_refl _
+    · split <;> omega
+  · intro he hr
+    by_cases hs : rid > 0 ∧ rid ≤ s.requestId
+    · rw [report_stale _ _ _ _ _ hs] at he; cases he
+    · rw [h2, if_neg hs]; unfold newId; rw [if_pos hr]; omega
+
+/-- operations of other instances, and `Resize`, leave an instance's entry alone -/
+theorem c08_seq_others_untouched (g : G) (op : Op) (j : Str)
+    (h : match op with | .set i _ _ => j ≠ i | .resize _ => True) :
+    find j (step g op).states = find j g.states := by
+  cases op with
+  | set i r c => exact setState_find_other g i j r c h
+  | resize n => show find j (resize g n).1.states = _; unfold resize; split <;> rfl
+
+/-- an op "removes `inst`" when it is a `SetState` of `inst` with a negative count -/
+def Removes (inst : Str) : Op → Prop
+  | .set i _ c => i = inst ∧ c < 0
+  | .resize _ => False
+
+/-- **Equal (or older) request ids are processed at most once**: once a report with id `rid` has been processed
+    for an instance, then after ANY further operations (of any instances, in any order) that do not remove the
+    instance, a report of it with an id `≤ rid` is refused. -/
+theorem c08_seq_same_id_once (g : G) (inst : Str) (rid cur : Int) (ops : List Op) (rid' cur' : Int)
+    (h0 : 0 ≤ cur) (hr : 0 < rid) (hproc : (setState g inst rid cur).2.err = .none)
+    (hno : ∀ op ∈ ops, ¬ Removes inst op) (h0' : 0 ≤ cur') (hr' : 0 < rid' ∧ rid' ≤ rid) :
+    (setState (run (setState g inst rid cur).1 ops) inst rid' cur').2 = ⟨false, cur', .requestIDTooOld⟩ ∧
+    (setState (run (setState g inst rid cur).1 ops) inst rid' cur').1 = run (setState g inst rid cur).1 ops := by
+  -- after the processed report the stored id is `rid`
+  have hstart : ∃ s, find inst (setState g inst rid cur).1.states = some s ∧ rid ≤ s.requestId := by
+    rw [setState_report g inst rid cur h0] at hproc ⊢
+    obtain ⟨s', h1, h2⟩ := report_find_id (ensure g inst) inst (stateOf g inst) rid cur (ensure_find g inst)
+    refine ⟨s', h1, ?_⟩
+    by_cases hs : rid > 0 ∧ rid ≤ (stateOf g inst).requestId
+    · rw [report_stale _ _ _ _ _ hs] at hproc; cases hproc
+    · rw [h2, if_neg hs]; unfold newId; rw [if_pos hr]; exact Int.le_refl _
+  -- the stored id never decreases while the instance is not removed
+  have hkeep : ∀ (ops : List Op) (g1 : G), (∃ s, find inst g1.states = some s ∧ rid ≤ s.requestId) →
+      (∀ op ∈ ops, ¬ Removes inst op) → ∃ s, find inst (run g1 ops).states = some s ∧ rid ≤ s.requestId := by
+    intro ops
+    induction ops with
+    | nil => intro g1 h _; exact h
+    | cons op rest ih =>
+      intro g1 ⟨s, hs, hle⟩ hno
+      apply ih (step g1 op)
+      · cases op with
+        | resize n =>
+          refine ⟨s, ?_, hle⟩
+          rw [c08_seq_others_untouched g1 (.resize n) inst trivial]; exact hs
+        | set i r c =>
+          by_cases hi : i = inst
+          · subst hi
+            have hc : 0 ≤ c := by
+              have hnr := hno (.set i r c) (List.mem_cons_self ..)
+              unfold Removes at hnr
+              by_cases hc : 0 ≤ c
+              · exact hc
+              · exact absurd ⟨rfl, by omega⟩ hnr
+            obtain ⟨s', h1, h2, _⟩ := c08_seq_reqid_monotone g1 i r c s hs hc
+            exact ⟨s', h1, by omega⟩
+          · refine ⟨s, ?_, hle⟩
+            rw [c08_seq_others_untouched g1 (.set i r c) inst (fun e => hi e.symm)]; exact hs
+      · intro op' hm; exact hno op' (List.mem_cons_of_mem _ hm)
+  obtain ⟨s, hs, hle⟩ := hkeep ops _ hstart hno
+  rw [c08_seq_reqid_refused _ inst rid' cur' s hs h0' ⟨hr'.1, by omega⟩]
+  exact ⟨rfl, rfl⟩
 
 end KG.Props.C08
